@@ -287,8 +287,10 @@ type pExec struct {
 	finds   []finding
 	cnt     counters
 	blkBuf  lz.Block
-	// wrap bookkeeping: bytes the reader handed out that were fed
 	wrapEOF bool
+	twinOn  bool      // compare with a parser that is fresh since the last Reset (C13)
+	twin    lz.Parser
+	twinBlk lz.Block
 }
 
 func newPExec(cfg pcfg, cnt counters) (*pExec, string) {
@@ -363,6 +365,10 @@ func (e *pExec) step(line string) (out string) {
 		p := unhx(ws[1])
 		before := len(e.fed) - e.off
 		n, err := e.p.Write(p)
+		if e.twin != nil {
+			n2, err2 := e.twin.Write(p)
+			e.cmpTwin("Write", n, n2, err, err2, false)
+		}
 		e.checkStore("Write", p, n, err, before)
 		return fmt.Sprintf("%d %s", n, errName(err))
 	case "readfrom":
@@ -370,6 +376,11 @@ func (e *pExec) step(line string) (out string) {
 		r := &scriptReader{payload: append([]byte{}, payload...), resps: parseResps(ws[2])}
 		before := len(e.fed) - e.off
 		n, err := e.p.ReadFrom(r)
+		if e.twin != nil {
+			r2 := &scriptReader{payload: append([]byte{}, payload...), resps: parseResps(ws[2])}
+			n2, err2 := e.twin.ReadFrom(r2)
+			e.cmpTwin("ReadFrom", int(n), int(n2), err, err2, false)
+		}
 		if int(n) != r.handed {
 			e.find("C15", "ReadFrom n differs from bytes the reader handed out", "ReadFrom",
 				fmt.Sprintf("n=%d handed=%d", n, r.handed))
@@ -381,15 +392,27 @@ func (e *pExec) step(line string) (out string) {
 		e.blkBuf.Sequences = append(e.blkBuf.Sequences[:0], lz.Seq{LitLen: 9, MatchLen: 9, Offset: 9})
 		e.blkBuf.Literals = append(e.blkBuf.Literals[:0], 0xEE)
 		n, err := e.p.Parse(&e.blkBuf, flags)
+		if e.twin != nil {
+			n2, err2 := e.twin.Parse(&e.twinBlk, flags)
+			e.cmpTwin("Parse", n, n2, err, err2, true)
+		}
 		e.checkBlock("Parse", n, err, flags)
 		return fmt.Sprintf("%d %s %s %s", n, errName(err), showSeqs(e.blkBuf.Sequences), hx(e.blkBuf.Literals))
 	case "parsenil":
 		n, err := e.p.Parse(nil, 0)
+		if e.twin != nil {
+			n2, err2 := e.twin.Parse(nil, 0)
+			e.cmpTwin("Parse(nil)", n, n2, err, err2, false)
+		}
 		e.checkNil(n, err)
 		return fmt.Sprintf("%d %s", n, errName(err))
 	case "shrink":
 		w := e.cpos - e.off
 		d := e.p.Shrink()
+		if e.twin != nil {
+			d2 := e.twin.Shrink()
+			e.cmpTwin("Shrink", d, d2, nil, nil, false)
+		}
 		want := w - e.bc.ShrinkSize
 		if want < 0 {
 			want = 0
@@ -423,6 +446,18 @@ func (e *pExec) step(line string) (out string) {
 			}
 		} else if err != nil {
 			e.find("C16", "Reset fails spuriously", "Reset", err.Error())
+		}
+		if err == nil && e.twinOn {
+			// a newly created parser of the same configuration, given the same data
+			e.twin, _ = e.cfg.toLz().NewParser()
+			var arg2 []byte
+			if ws[1] != "-" {
+				arg2 = append(make([]byte, 0, len(data)+7), data...)
+			}
+			if e.twin.Reset(arg2) != nil {
+				e.twin = nil
+			}
+			e.cnt.inc("p.twin.fresh")
 		}
 		if err == nil {
 			e.fed = append(e.fed[:0], data...)
@@ -801,4 +836,21 @@ func (e *pExec) checkBlock(site string, n int, err error, flags int) {
 		e.checkOSAP(site, n)
 	}
 	e.cpos += n
+}
+
+// cmpTwin compares the parser with its twin that is fresh since the last
+// Reset (C13).
+func (e *pExec) cmpTwin(site string, n, n2 int, err, err2 error, block bool) {
+	same := n == n2 && errName(err) == errName(err2)
+	if block && same {
+		same = showSeqs(e.blkBuf.Sequences) == showSeqs(e.twinBlk.Sequences) && string(e.blkBuf.Literals) == string(e.twinBlk.Literals)
+	}
+	if block {
+		e.cnt.inc("p.twin.blocks")
+	}
+	if !same {
+		e.find("C13", "parser after Reset behaves differently from a new parser", site,
+			fmt.Sprintf("n=%d/%d err=%v/%v seqs=%s / %s", n, n2, err, err2, showSeqs(e.blkBuf.Sequences), showSeqs(e.twinBlk.Sequences)))
+		e.twin = nil
+	}
 }
